@@ -444,7 +444,9 @@ pub fn history(tr: &mut Tracer, w: &mut World, rng: &mut Rng, p: &Profile) {
             let ps = with_position(w);
             let (v, t) = if !ps.is_empty() && rng.chance(9, 10) { *rng.pick(&ps) } else { (v, t) };
             let amt = pick_amount(rng, d) / 4 + 1;
-            tr.step(w, &Op::Eng { sender: t, funds: if w.d.native { amt } else { 0 }, m: EMsg::Deposit { vamm: v, amt } });
+            // native: the attached funds are the amount, or (a fifth of the time) one unit / a multiple off it, or nothing
+            let funds = if w.d.native { match rng.below(10) { 0 => amt + 1, 1 => amt.saturating_sub(1), 2 => amt * 2, 3 => 0, _ => amt } } else { 0 };
+            tr.step(w, &Op::Eng { sender: t, funds, m: EMsg::Deposit { vamm: v, amt } });
         } else if take(p.w_withdraw) {
             let ps = with_position(w);
             let (v, t) = if !ps.is_empty() && rng.chance(9, 10) { *rng.pick(&ps) } else { (v, t) };
